@@ -214,3 +214,149 @@ def _aligned(g, tab):
         if tabs.find(p) == tabs.find(tab):
             out.add(p)
     return out
+
+
+def fb_epoch(ctx):
+    """feedback filter: the state at a measurement epoch inside the pending sampling interval"""
+    ctx.rule('INTERP-FB', 'feedback: epoch state = predict(a * pending increment) with a = (T[m] - '
+             'integrator time) / dt of that increment (elapsed fraction of the interval, the whole '
+             'row incl. its dt is scaled); body rates = theta / dt of the same increment')
+    repo = ctx.repo
+    _REPO[0] = repo
+    g = repo.function('filters.run_feedback_filter')
+    from . import sched
+    M = [m for m in sched._models(ctx, (sched.FB,))][0]
+    loop = M.loop
+    A = Alg()
+    # the integrator object and the time read at the top of the iteration
+    integ = None
+    for a_ in ast.walk(g.node):
+        if isinstance(a_, ast.Assign) and isinstance(a_.targets[0], ast.Name) and \
+                isinstance(a_.value, ast.Call) and g.module.resolve(
+                    a_.value.func, g.local_names()) == 'pyins.strapdown.Integrator':
+            integ = a_.targets[0].id
+    ctx.need(integ is not None, 'feedback: integrator object not found')
+    tvar = None
+    for st in loop.body:
+        if isinstance(st, ast.Assign) and isinstance(st.targets[0], ast.Name) and \
+                norm_text(st.value) == '%s.get_time()' % integ:
+            tvar = st.targets[0].id
+            break
+    ctx.need(tvar is not None, 'feedback: integrator time is not read at the top of the iteration')
+    calls = [n for n in ast.walk(loop) if isinstance(n, ast.Call) and
+             norm_text(n.func) == '%s.predict' % integ]
+    ctx.need(len(calls) >= 1, 'feedback: no predict call in the loop')
+    for call in calls:
+        arg = call.args[0] if call.args else None
+        st = None
+        for s2 in ast.walk(loop):
+            if isinstance(s2, ast.stmt) and any(x is call for x in ast.walk(s2)) and \
+                    not isinstance(s2, (ast.While, ast.For, ast.If)):
+                st = s2
+        # the pending increment: a local defined by the correction of increments.iloc[c]
+        incs = set()
+        for s2 in ast.walk(loop):
+            if isinstance(s2, ast.Assign) and isinstance(s2.targets[0], ast.Name) and \
+                    isinstance(s2.value, ast.Call) and '.iloc[%s]' % M.c in norm_text(s2.value):
+                incs.add(s2.targets[0].id)
+        ok, why = False, 'argument of predict is `%s`' % (norm_text(arg) if arg is not None else '')
+        used = [n.id for n in ast.walk(arg) if isinstance(n, ast.Name) and n.id in incs] \
+            if arg is not None else []
+        if used:
+            inc = used[0]
+            try:
+                v = _scalar(A, arg, {tvar: 't0'}, inc, M, g, st)
+                want = A.mul(A.sym('INC'), A.div(A.sub(A.sym('Tm'), A.sym('t0')), A.sym('dt')))
+                ok = A.eq(v, want)
+                if not ok:
+                    why = 'the increment handed to predict is `%s`' % norm_text(arg)[:90]
+            except ValueError as e:
+                why = str(e)
+        ctx.ob('INTERP-FB', ok, None, 'predict(a * increment), a = (T[m] - time) / dt', f=g,
+               node=call, key='fb-epoch',
+               why='feedback: the state at a measurement epoch is not predicted with the elapsed '
+                   'fraction of the pending increment: %s' % why)
+        # rates handed to the measurement models
+        ser = [n for n in ast.walk(st) if isinstance(n, ast.Call) and
+               (g.module.resolve(n.func, g.local_names()) or '') == 'pandas.Series' and n.args] \
+            if st is not None else []
+        for sc in ser:
+            e = sc.args[0]
+            used = [n.id for n in ast.walk(e) if isinstance(n, ast.Name) and n.id in incs]
+            okr = False
+            if used:
+                try:
+                    v = _scalar(A, e, {tvar: 't0'}, used[0], M, g, st)
+                    okr = A.eq(v, A.div(A.sym('THETA'), A.sym('dt')))
+                except ValueError:
+                    okr = False
+            ctx.ob('INTERP-FB', okr, None, 'body rates = theta / dt of the pending increment', f=g,
+                   node=sc, key='fb-rates',
+                   why='feedback: the body rates handed to the measurement models are `%s`, not '
+                       'the rotation increment of the pending sample divided by its dt'
+                       % norm_text(e)[:80])
+
+
+def _scalar(A, e, names, inc, M, g, st):
+    """small scalar evaluator: measurement time T[m] -> Tm, time at loop top -> t0,
+    increment['dt'] -> dt"""
+    if isinstance(e, ast.Constant) and isinstance(e.value, (int, float)):
+        return A.const(e.value)
+    if isinstance(e, ast.Name) and e.id == inc:
+        return A.sym('INC')
+    if isinstance(e, ast.Name):
+        if names.get(e.id):
+            return A.sym(names[e.id])
+        t = M.clo.text(e, st)
+        if t == '%s[%s]' % (M.T, M.m):
+            return A.sym('Tm')
+        raise ValueError('`%s` is not the epoch time, the time at the top of the iteration or dt'
+                         % e.id)
+    if isinstance(e, ast.Name) and e.id == inc:
+        return A.sym('INC')
+    if isinstance(e, ast.Attribute) and e.attr == 'values':
+        return _scalar(A, e.value, names, inc, M, g, st)
+    if isinstance(e, ast.Subscript) and isinstance(e.value, ast.Name) and e.value.id == inc and \
+            norm_text(e.slice) == "'dt'":
+        return A.sym('dt')
+    if isinstance(e, ast.Subscript) and isinstance(e.value, ast.Name) and e.value.id == inc:
+        try:
+            cols = _fold_cols(g, e.slice)
+        except ValueError:
+            cols = None
+        if cols is not None:
+            return A.sym('THETA' if cols == 'theta' else 'COLS_' + cols)
+    if isinstance(e, ast.Attribute) and isinstance(e.value, ast.Name) and e.value.id == inc and \
+            e.attr == 'dt':
+        return A.sym('dt')
+    if isinstance(e, ast.BinOp):
+        a, b = _scalar(A, e.left, names, inc, M, g, st), _scalar(A, e.right, names, inc, M, g, st)
+        if isinstance(e.op, ast.Add):
+            return A.add(a, b)
+        if isinstance(e.op, ast.Sub):
+            return A.sub(a, b)
+        if isinstance(e.op, ast.Mult):
+            return A.mul(a, b)
+        if isinstance(e.op, ast.Div):
+            return A.div(a, b)
+    raise ValueError('`%s` not understood' % norm_text(e)[:50])
+
+
+def _fold_cols(g, node):
+    """which documented column group a constant column selection is"""
+    try:
+        val = _REPO[0].fold(node, g.module)
+    except Exception:
+        raise ValueError('columns')
+    if not isinstance(val, (list, tuple)):
+        raise ValueError('columns')
+    th = _REPO[0].const('util.THETA_COLS')
+    dv = _REPO[0].const('util.DV_COLS')
+    if list(val) == list(th):
+        return 'theta'
+    if list(val) == list(dv):
+        return 'dv'
+    return '_'.join(str(x) for x in val)
+
+
+_REPO = [None]
